@@ -1,10 +1,10 @@
 /-
 Model of the HTTP `Range` handling of dash-live (property C13):
 
-* `RequestHandlerBase.get_http_range`   dashlive/server/requesthandler/base.py:115-157
+* `RequestHandlerBase.get_http_range`   dashlive/server/requesthandler/base.py:115-156
   (as repaired by the `fix:` commit for D4 – clamp of last-byte-pos, clamp of a
   suffix longer than the resource, 416 only when no byte is selected)
-* the slice of the generated segment     dashlive/server/requesthandler/media_requests.py:273-280
+* the slice of the generated segment     dashlive/server/requesthandler/media_requests.py:277-284
 * the on-demand file read                dashlive/server/requesthandler/media_requests.py:64-84
 
 Import-free (core Lean only) so that the line-protocol driver can be compiled.
@@ -80,7 +80,7 @@ def splitDash : List Char → List (List Char)
 /-- `'bytes='` -/
 def bytesEq : List Char := ['b', 'y', 't', 'e', 's', '=']
 
-/-! ### `get_http_range` – base.py:115-157 -/
+/-! ### `get_http_range` – base.py:115-156 -/
 
 /-- the three shapes the parser distinguishes (base.py:134-146) -/
 inductive Parsed
@@ -90,7 +90,7 @@ inductive Parsed
   deriving DecidableEq, Repr
 
 /-- lines 118-146 up to the integers; `none` = `ValueError` (lines 123, 125, the
-tuple unpacking of line 132, `int()` of lines 135/139/143) -/
+tuple unpacking of line 132, `int()` of lines 135/140/145) -/
 def parseRange (lim : Nat) (hdr : List Char) : Option Parsed :=
   let h := stripBy isSpaceStr (lower hdr)                 -- line 119
   if h.take 6 ≠ bytesEq then none                          -- line 122 startswith
@@ -98,11 +98,11 @@ def parseRange (lim : Nat) (hdr : List Char) : Option Parsed :=
   else match splitDash (h.drop 6) with                     -- line 132
     | [s, e] =>
       if s = [] then (pyInt lim e).map Parsed.suffix       -- line 135
-      else match pyInt lim s with                          -- line 139
+      else match pyInt lim s with                          -- line 140
         | none => none
         | some a =>
-          if e = [] then some (Parsed.fromFirst a)         -- line 141
-          else (pyInt lim e).map (Parsed.firstLast a)      -- line 144
+          if e = [] then some (Parsed.fromFirst a)         -- line 142
+          else (pyInt lim e).map (Parsed.firstLast a)      -- line 145
     | _ => none
 
 /-- what `get_http_range` returns when a header is present -/
@@ -128,7 +128,7 @@ def crSatisfied (start stop : Int) (len : Nat) : List Char :=
 /-- `f'bytes */{content_length}'` (line 154) -/
 def crUnsatisfied (len : Nat) : List Char := ['b', 'y', 't', 'e', 's', ' ', '*', '/'] ++ natRepr len
 
-/-- lines 134-146 of the **repaired** code: `(start, end)` with the clamping of
+/-- lines 134-145 of the **repaired** code: `(start, end)` with the clamping of
 a suffix longer than the resource and of a last-byte-pos beyond its end -/
 def startStop (p : Parsed) (len : Nat) : Int × Int :=
   match p with
@@ -136,7 +136,7 @@ def startStop (p : Parsed) (len : Nat) : Int × Int :=
   | .fromFirst first => (first, (len : Int) - 1)
   | .firstLast first last => (first, min last ((len : Int) - 1))
 
-/-- lines 134-157 of the **repaired** code: start/end, the 206/416 decision and
+/-- lines 134-156 of the **repaired** code: start/end, the 206/416 decision and
 the `Content-Range` text -/
 def decideRange (p : Parsed) (len : Nat) : RangeOut :=
   let se := startStop p len
@@ -204,14 +204,14 @@ structure Response (α : Type) where
   contentRange : Option (List Char)
   deriving DecidableEq, Repr
 
-/-- tail of `MediaRequestBase.generate_media_segment`, media_requests.py:267-282:
+/-- tail of `MediaRequestBase.generate_media_segment`, media_requests.py:271-286:
 `data` is the encoded segment -/
 def segmentResponseWith {α : Type} (dec : Parsed → Nat → RangeOut) (lim : Nat)
     (hdr : Option (List Char)) (data : List α) : Response α :=
   match getHttpRangeWith dec lim hdr data.length with
-  | .error _ => { status := 400, body := [], contentRange := none }              -- line 278-280
+  | .error _ => { status := 400, body := [], contentRange := none }              -- line 282-284
   | .ok none => { status := 200, body := data, contentRange := none }
-  | .ok (some r) =>                                                              -- line 275-277
+  | .ok (some r) =>                                                              -- line 278-281
     { status := r.status, body := pySlice data r.start (r.stop + 1),
       contentRange := some r.contentRange }
 
@@ -224,7 +224,7 @@ def onDemandResponseWith {α : Type} (dec : Parsed → Nat → RangeOut) (lim : 
   | .error _ => { status := 400, body := [], contentRange := none }              -- line 68-70
   | .ok none => { status := 400, body := [], contentRange := none }              -- line 71-73
   | .ok (some r) =>
-    if r.status = 206 then                                                       -- line 81
+    if r.status = 206 then                                                       -- line 81-83
       if r.start < 0 then { status := 500, body := [], contentRange := none }
       else { status := 206, body := fileRead file r.start.toNat (1 + r.stop - r.start),
              contentRange := some r.contentRange }
